@@ -38,7 +38,7 @@ pub struct Multi {
 }
 
 /// exactly `d` bytes of trivia that may stand at the start of a line between two tokens
-fn pad_text(rng: &mut Rng, d: usize) -> (String, &'static str) {
+pub fn pad_text(rng: &mut Rng, d: usize) -> (String, &'static str) {
 	if d == 0 {
 		return (String::new(), "none");
 	}
@@ -315,7 +315,7 @@ fn strip_ansi(s: &str) -> String {
 /// HiDoc rendering → per annotated description: (section index, line number, column of the first
 /// highlighted character): the annotation line carries the description in the colour of the span.
 /// Observation only; returns what could be recognised.
-fn hidoc_marks(rendered: &str) -> Vec<(usize, String, u64, u64)> {
+pub fn hidoc_marks(rendered: &str) -> Vec<(usize, String, u64, u64)> {
 	// colour → description, per section; then source lines `N  │ text` with coloured segments
 	let mut out = Vec::new();
 	let mut section = 0usize;
